@@ -111,7 +111,7 @@ CLAIMS = {
 
  "C09": dict(category="proof", design="4/C09",
   text="64 Lean theorems on the generated boost functions for all reals with |beta|<1: Minkowski product preserved, inverse by the opposite boost, velocity addition along an axis, "
-       "boost_p4 = boost_beta3 o to_beta3, boostX/Y/Z(beta) = boost_beta3 along the axis = boostX/Y/Z(gamma) for the matching gamma, boostCM_of_p4(v,v) = (0,0,0,tau), tau preserved; Props/C09Comm.lean (10 theorems): an axis boost leaves the transverse components untouched, commutes with the rotation about its axis, is orthochronous for |beta|<1 (t > |x_axis| implies boosted t > 0), beta = 0 is the identity; "
+       "boost_p4 = boost_beta3 o to_beta3, boostX/Y/Z(beta) = boost_beta3 along the axis = boostX/Y/Z(gamma) for the matching gamma, boostCM_of_p4(v,v) = (0,0,0,tau), tau preserved; Props/C09Comm.lean (13 theorems): an axis boost leaves the transverse components untouched, commutes with the rotation about its axis, is orthochronous for |beta|<1 (t > |x_axis| implies boosted t > 0), beta = 0 is the identity; "
        "all coordinate systems via the C01 refinement of the boosts. boost()/boostCM_of() dispatch: glue model + symbolic correspondence. METHOD LEVEL (Props/MethodLorentz.lean, 86 theorems): 4D accessors, boostX/Y/Z (beta/gamma), boost_p4, boost_beta3, boost, boostCM_of*, to_beta3 and the causal predicates as PUBLIC CALLS (glue model on the regenerated real layer) in every storage: denotation, result type, Minkowski product preserved across any two storages, guards.",
   note=TB, technique="Lean 4 proofs (linear_combination certificates) over translator-generated model"),
  "C10": dict(category="proof", design="4/C10",
